@@ -16,8 +16,13 @@ PLACEMENTS_THOROUGH = PLACEMENTS_QUICK + [(0.5, (20000, -20000, 12345)), (2.0, (
 def execute(c):
     from swcgeom.core import Tree, redirect_tree, cat_tree
     if c["op"] == "redirect":
-        t = lib.mk_tree(c["P"], c["attr"])
+        def warm(tt):
+            redirect_tree(tt, len(tt) - 1, sort=True); redirect_tree(tt, 0, sort=False); tt.get_branches()
+            tt.traverse(enter=lambda n, p: 0, leave=lambda n, cs: 0)
+        t = lib.via_edit(c, c["P"], lambda Q: lib.mk_tree(Q, c["attr"]), warm)       # one case in four: the tree got its shape by an in-place edit after it was used
         snap = lib.snapshot(t)
+        if lib.vid(c) % 5 == 2:
+            lib.scribble(redirect_tree(t, c["i"], sort=bool(c["sort"])))            # an earlier result of the same call, overwritten in place by its owner
         r = redirect_tree(t, c["i"], sort=bool(c["sort"]))
         mp, rpid, rattr = lib.project_tagged(r)
         return {"map": mp, "rpid": rpid, "rattr": rattr, "srcchanged": lib.changed(t, snap), "idsok": int(lib.ids_ok(r))}
@@ -40,6 +45,8 @@ def execute(c):
     if c.get("pre2", 0) > 0:
         t2 = redirect_tree(t2, c["pre2"], sort=False)      # a valid tree whose root is not its node 0 (the documented result of re-rooting without sorting)
     s1, s2 = lib.snapshot(t1), lib.snapshot(t2)
+    if lib.vid(c) % 5 == 2:
+        lib.scribble(cat_tree(t1, t2, c["i"], c["j"], translate=bool(c["tr"])))
     r = cat_tree(t1, t2, c["i"], c["j"], translate=bool(c["tr"]))
     ident = [[int(v) // 1000, int(v) % 1000] for v in r.ndata["tag"]]
 
